@@ -24,6 +24,7 @@ CONSTANTS OneWayT,      \* BOOLEAN: the session comes from a one-way pattern
           BadBudget,    \* altered / garbage / donor deliveries per behaviour
           SetBudget,    \* explicit nonce settings per behaviour
           RekeyBudget,  \* rekey operations per behaviour
+          Probes,       \* BOOLEAN: follow every emitted edge with a write/read round trip in both directions (see ProbeSteps)
           SmallBufs,    \* BOOLEAN: also try undersized buffers
           PayBase,      \* ordinary payloads are PayBase + j bytes long
           BigBudget,    \* sends with a maximum-size (65535-16) and an oversized (+1) payload per behaviour
@@ -213,11 +214,44 @@ InvT == /\ OnlyPeerAccepted /\ InOrderOnce /\ RejectIsNoOp /\ StepsByOne /\ Exha
 (* hist is hidden by the VIEW: each distinct state is expanded once and hist is the breadth-first
    path to it; the action constraint prints that path plus the new step for EVERY successor generated. *)
 ViewT == <<ep, pool, cnt, seq>>
+
+(* PROBES.  The VIEW identifies states, so an edge is replayed after the SHORTEST path to its source only, and *)
+(* what the edge leaves behind is compared through the observables (counters) alone.  A divergence that sits   *)
+(* in the KEY (a rekey that silently did nothing, say, because of what happened earlier) would then only show   *)
+(* if a later edge happened to be replayed on top of the same history.  With Probes, every emitted edge is      *)
+(* followed by four calls computed by the pure operators from the post-state: I writes, R reads that, R        *)
+(* writes, I reads that - so the keys and counters both sides REALLY hold after the edge are compared with the *)
+(* model's, byte for byte, for every edge and every path.                                                     *)
+PN == IF NonceMode = "top" THEN NTop(1) ELSE NLo(1)
+PrW(ts, id, p) ==
+  LET w == IF Stateful THEN TWrite(ts, p, BIG) ELSE SWrite(ts, PN, p, BIG) @@ [ts |-> ts]
+      args == IF Stateful THEN [payload |-> p, buf |-> BIG] ELSE [n |-> PN, payload |-> p, buf |-> BIG]
+      op == IF Stateful THEN "t_write" ELSE "s_write" IN
+  IF w.causes = {}
+  THEN [step |-> Step(op, id, args, [res |-> "ok", len |-> w.len, out |-> <<w.out>>, obs |-> TrObs(w.ts, Stateful)]),
+        ts |-> w.ts, out |-> <<w.out>>]
+  ELSE [step |-> Step(op, id, args, [res |-> "err", causes |-> w.causes, kinds |-> KindsOfSet(w.causes), obs |-> TrObs(ts, Stateful)]),
+        ts |-> ts, out |-> <<>>]
+PrR(ts, id, m) ==
+  LET r == IF Stateful THEN TRead(ts, m, BIG) ELSE SRead(ts, PN, m, BIG) @@ [ts |-> ts]
+      args == IF Stateful THEN [msg |-> m, outlen |-> BIG] ELSE [n |-> PN, msg |-> m, outlen |-> BIG]
+      op == IF Stateful THEN "t_read" ELSE "s_read" IN
+  IF r.causes = {}
+  THEN [step |-> Step(op, id, args, [res |-> "ok", len |-> r.plen, payload |-> r.payload, obs |-> TrObs(r.ts, Stateful)]), ts |-> r.ts]
+  ELSE [step |-> Step(op, id, args, [res |-> "err", causes |-> r.causes, noleak |-> LeakSet(m),
+                                      kinds |-> KindsOfSet(r.causes), obs |-> TrObs(ts, Stateful)]), ts |-> ts]
+ProbeSteps(e) ==
+  LET w1 == PrW(e["I"].st, "I", Lit("probeI", 5))
+      r1 == PrR(e["R"].st, "R", w1.out)
+      w2 == PrW(r1.ts, "R", Lit("probeR", 6))
+      r2 == PrR(w1.ts, "I", w2.out) IN
+  <<w1.step>> \o (IF w1.out = <<>> THEN <<>> ELSE <<r1.step>>) \o <<w2.step>> \o (IF w2.out = <<>> THEN <<>> ELSE <<r2.step>>)
+
 EmitEdge ==
   EmitEdges => PrintT(<<"SCN", ToJson([family |-> "transport",
                                         prm |-> [oneway |-> OneWayT, stateful |-> Stateful, noncemode |-> NonceMode],
                                         \* whether the (key, nonce) uniqueness predicate applies to the observed
                                         \* encryptions: not when the application itself chose/moved the nonces
                                         noreuse |-> (Stateful /\ ~cnt'.hook),    \* a RECEIVING nonce setting never excuses a reuse
-                                        steps |-> hist'])>>)
+                                        steps |-> hist' \o (IF Probes THEN ProbeSteps(ep') ELSE <<>>)])>>)
 =============================================================================
